@@ -481,3 +481,56 @@ Proof.
     apply andb_true_iff in H as [H1 H2]. rewrite (IH H2). destruct (is_dot c); [discriminate | reflexivity]. }
   rewrite E. reflexivity.
 Qed.
+
+(* ------------------------------------------------------------------ statements used by Properties/C19.v *)
+Theorem split_invariant fx tree ds :
+  NoDup (type_names ds) -> has_ext ds = false ->
+  Permutation (flat_map defs_of (filter (selected fx) tree)) ds ->
+  Permutation (type_map (loaded_defs fx tree)) (type_map ds) /\
+  forall n, assoc_get n (type_map (loaded_defs fx tree)) = assoc_get n (type_map ds).
+Proof.
+  intros Hn He Hp. pose proof (split_permutation fx tree ds Hp) as H. split.
+  - apply type_map_perm_noext; assumption.
+  - intro n. apply type_map_lookup_eq_noext; assumption.
+Qed.
+
+Theorem split_invariant_ext fx tree ds n :
+  NoDup (type_names ds) ->
+  Permutation (flat_map defs_of (filter (selected fx) tree)) ds ->
+  lookup_equiv (assoc_get n (type_map (loaded_defs fx tree))) (assoc_get n (type_map ds)).
+Proof.
+  intros Hn Hp. apply type_map_lookup_equiv; [exact Hn | apply split_permutation; exact Hp].
+Qed.
+
+Theorem load_unselected_ignored fx tree junk :
+  forallb (fun e => negb (selected fx e)) junk = true ->
+  load_dir fx (tree ++ junk) = load_dir fx tree.
+Proof. intro H. unfold load_dir. rewrite (unselected_ignored fx tree junk H). reflexivity. Qed.
+
+Lemma all_readable_from_files fx tree :
+  files_readable fx tree = true -> (fx = true \/ suffixed_dir tree = false) -> all_readable fx tree = true.
+Proof.
+  unfold files_readable, all_readable, suffixed_dir. intros H G.
+  induction tree as [|e t IH]; simpl in *; [reflexivity|].
+  apply andb_true_iff in H as [H1 H2].
+  assert (G' : fx = true \/ existsb (fun e => e_isdir e && selected false e) t = false).
+  { destruct G as [G|G]; [left; exact G|]. apply orb_false_iff in G as [_ G]. right. exact G. }
+  specialize (IH H2 G').
+  destruct (selected fx e) eqn:S; simpl; [|exact IH]. rewrite IH, andb_true_r.
+  destruct (e_isdir e) eqn:D; simpl in *.
+  - exfalso. destruct G as [G|G].
+    + subst fx. unfold selected in S. rewrite D in S. simpl in S. discriminate.
+    + apply orb_false_iff in G as [G _]. destruct fx.
+      * unfold selected in S. rewrite D in S. simpl in S. discriminate.
+      * rewrite S in G. discriminate.
+  - exact H1.
+Qed.
+
+
+Theorem split_loads_partial tree :
+  files_readable false tree = true -> suffixed_dir tree = false -> exists t, load_dir false tree = inr t.
+Proof. intros H G. apply load_ok_iff. apply all_readable_from_files; auto. Qed.
+
+Theorem split_loads_fixed tree :
+  files_readable true tree = true -> exists t, load_dir true tree = inr t.
+Proof. intros H. apply load_ok_iff. apply all_readable_from_files; auto. Qed.
